@@ -174,6 +174,17 @@ type Run struct {
 	SHists     []*SHist
 	Inconclusive int
 	Corrupted  []corruptRec
+	exchDone   int
+	Growth     []GrowthPoint
+}
+
+// GrowthPoint is the store footprint after N completed exchanges.
+type GrowthPoint struct {
+	N        int
+	Keys     int
+	MaxIndex int
+	Index    map[string]int
+	Bytes    int
 }
 
 type corruptRec struct {
@@ -272,6 +283,8 @@ func looksIndex(key string, v []byte) bool {
 }
 
 func (r *Run) storeFault(kind string) *StoreFault {
+	r.mu.Lock()
+	defer r.mu.Unlock()
 	n := r.kindCnt["st:"+kind]
 	r.kindCnt["st:"+kind]++
 	anyN := r.kindCnt["st:any"]
@@ -994,6 +1007,20 @@ func (r *Run) exchange(g *kit.Gor, ci, oi int, name string, op *Op) {
 	}
 	r.mu.Lock()
 	delete(r.cur, name)
+	r.exchDone++
+	for _, cp := range r.Scn.Checkpoints {
+		if cp == r.exchDone {
+			gp := GrowthPoint{N: cp, Keys: len(r.Live), Index: map[string]int{}}
+			for k, v := range r.Live {
+				gp.Bytes += len(v)
+				if looksIndex(k, v) {
+					gp.Index[k] = len(v)
+					gp.MaxIndex = max(gp.MaxIndex, len(v))
+				}
+			}
+			r.Growth = append(r.Growth, gp)
+		}
+	}
 	r.mu.Unlock()
 }
 
